@@ -159,6 +159,13 @@ type Half struct {
 	paused bool // reader sees nothing while paused
 
 	errWithData bool // deliver the end-of-stream error together with the last bytes, as io.Reader allows
+	// timeoutWithData: the first read that finds data after the wire had
+	// drained, while a read deadline is armed, is held till that deadline and
+	// then returns the data together
+	// with the timeout error ("the bytes arrived as the deadline expired"), as
+	// io.Reader allows and layered connections (TLS, proxies) do
+	timeoutWithData bool
+	twdHold         bool
 
 	written   int64 // bytes accepted from the writer (before rewrite)
 	enqueued  int64 // bytes put in the queue (after rewrite)
@@ -328,6 +335,13 @@ func (h *Half) SetRewrite(f func(off int64, p []byte) []byte) {
 // (n > 0 and err != nil in one call), as the io.Reader contract allows.
 func (h *Half) SetErrWithData(on bool) { h.mu.Lock(); h.errWithData = on; h.mu.Unlock() }
 
+// SetTimeoutWithData: see the field.
+func (h *Half) SetTimeoutWithData(on bool) {
+	h.mu.Lock()
+	h.timeoutWithData, h.twdHold = on, on
+	h.mu.Unlock()
+}
+
 // Pause stops/resumes delivery to the reader.
 func (h *Half) Pause(on bool) { h.mu.Lock(); h.paused = on; h.mu.Unlock(); h.cond.Broadcast() }
 
@@ -433,7 +447,8 @@ func (c *Conn) readLocked(p []byte) (int, error) {
 			}
 			return 0, opErr("read", c, net.ErrClosed)
 		}
-		if !dl.IsZero() && !time.Now().Before(dl) {
+		expired := !dl.IsZero() && !time.Now().Before(dl)
+		if expired && !(h.timeoutWithData && h.twdHold && !h.paused && len(p) > 0 && len(h.buf) > 0 && (h.cutAt < 0 || h.cutAt > h.delivered)) {
 			return 0, opErr("read", c, ErrTimeout)
 		}
 		if len(p) == 0 {
@@ -446,7 +461,8 @@ func (c *Conn) readLocked(p []byte) (int, error) {
 					avail = int(rem)
 				}
 			}
-			if avail > 0 {
+			held := avail > 0 && h.timeoutWithData && h.twdHold && !dl.IsZero() && !expired // held till the deadline
+			if avail > 0 && !held {
 				n := h.policy(avail, len(p), h.delivered)
 				if n > avail {
 					n = avail
@@ -461,6 +477,12 @@ func (c *Conn) readLocked(p []byte) (int, error) {
 				h.buf = h.buf[n:]
 				h.delivered += int64(n)
 				moved.Add(int64(n))
+				if h.timeoutWithData {
+					h.twdHold = len(h.buf) == 0 // once per burst: armed again when the wire has drained
+					if expired {
+						return n, opErr("read", c, ErrTimeout)
+					}
+				}
 				if h.errWithData {
 					if h.cutAt >= 0 && h.delivered >= h.cutAt {
 						switch h.cutKind {
@@ -475,7 +497,9 @@ func (c *Conn) readLocked(p []byte) (int, error) {
 				}
 				return n, nil
 			}
-			if h.cutAt >= 0 && h.delivered >= h.cutAt {
+			if held {
+				// wait for the deadline
+			} else if h.cutAt >= 0 && h.delivered >= h.cutAt {
 				switch h.cutKind {
 				case CutEOF:
 					return 0, io.EOF
